@@ -227,13 +227,15 @@ theorem initiate_tokInv (s : State) (sid : Nat) (committee : List Nat) (height :
     · exact h
     · split
       · exact h
-      · unfold TokInv logTokens at *
-        simp only [List.map_append, List.map_map]
-        have := (dequeueAll_inv committee s.queues (s.assignedLog.map (·.2.2.2)) s.nextToken h).1
-        have e : List.map ((fun x => x.2.2.2) ∘ fun x => (sid, sg.attempt + 1, x.1, x.2)) (dequeueAll s.queues committee).1
-            = (dequeueAll s.queues committee).1.map (·.2) := by
-          apply List.map_congr_left; intro x _; rfl
-        rw [e]; exact this
+      · split
+        · exact h
+        · unfold TokInv logTokens at *
+          simp only [List.map_append, List.map_map]
+          have := (dequeueAll_inv committee s.queues (s.assignedLog.map (·.2.2.2)) s.nextToken h).1
+          have e : List.map ((fun x => x.2.2.2) ∘ fun x => (sid, sg.attempt + 1, x.1, x.2)) (dequeueAll s.queues committee).1
+              = (dequeueAll s.queues committee).1.map (·.2) := by
+            apply List.map_congr_left; intro x _; rfl
+          rw [e]; exact this
 
 end BandVerif.Signing
 
